@@ -107,6 +107,8 @@ def run(ctx):
     c02.verdict_before_bytes(ctx, F, "R08.3")
 
     # ------------------------------------------------------------------ R08.4 switches gate checks only
+    gates = gate_helpers(F)
+    ctx.floor("R08.4", "helpers whose result says whether a name passed validation", len(gates), 1)
     n4 = 0
     for b in F.all_bodies(CR):
         if not c02.in_scope(b):
@@ -120,7 +122,7 @@ def run(ctx):
             pr = pr or Prov(b)
             o = pr.operand(t["discr"])
             sw = [x for x in o if x[0] == "arg" and x[2] and x[2][-1] in SW]
-            vn = [x for x in o if x[0] == "call" and (b.term(x[1]).get("callee") or {}).get("name") == "validate_name"]
+            vn = [x for x in o if x[0] == "call" and any(sb.def_ in gates for sb in local_callee_bodies(F, _cs(b, x[1])))]
             if not sw and not vn:
                 continue
             if any(x[0] == "op" and x[1] not in ("Not",) for x in o):
@@ -137,9 +139,20 @@ def run(ctx):
                 enabled_t, disabled_t = (other_t, zero_t) if negated else (zero_t, other_t)
                 what = sw[0][2][-1]
             else:
-                # validate_name: false (0) can only happen when validation is enabled
-                enabled_t, disabled_t = zero_t, other_t
-                what = "validate_name"
+                # a name gate: the outcome it produces when its switch is off is the `disabled` side; every other outcome can only
+                # happen when validation is enabled
+                gsb = [sb for sb in local_callee_bodies(F, _cs(b, vn[0][1])) if sb.def_ in gates][0]
+                passv = gate_switch_value(b, i, gates[gsb.def_])
+                if passv is None:
+                    ctx.bad("R08.4", fnkey(b) + "#name-gate-branch", loc(b, i), "the branch on the name check of %s is not understood" % gsb.name)
+                    continue
+                disabled_t = tg.get(passv, other_t)
+                en = [x for x in b.succ(i) if x != disabled_t and b.term(x)["k"] != "unreachable"]
+                if len(en) != 1:
+                    ctx.bad("R08.4", fnkey(b) + "#name-gate-branch", loc(b, i), "the branch on the name check of %s has %d rejecting sides" % (gsb.name, len(en)))
+                    continue
+                enabled_t = en[0]
+                what = gsb.name
             only_enabled = b.reachable(enabled_t) - b.reachable(disabled_t)
             appends = []
             for j in only_enabled:
@@ -152,9 +165,6 @@ def run(ctx):
                     if c.get("name") in ("write_metric", "write_metric_value", "write"):
                         appends.append(j)
             key = fnkey(b) + "#%s-gates-checks-only@%d" % (what, _switch_ordinal(b, i, pr))
-            if what == "validate_name":
-                # the disabled/valid side may write; the enabled-only side (invalid name) must not
-                pass
             ctx.check(not appends, "R08.4", key, loc(b, i),
                       "output is written only when validation `%s` is enabled (bb%s): enabling validation would change the bytes of valid entries" % (what, appends))
             # whatever output the disabled side always produces, the enabled side must produce too (or record an error)
@@ -167,14 +177,16 @@ def run(ctx):
                     "PrefixedStringBuf" in c.get("def", "") + (c.get("self_ty") or "") + (c.get("resolved") or "") or "JsonString" in c.get("def", ""))) or \
                     c.get("name") in ("write_metric", "write_metric_value", "write")
             errs_all = [j for j in b.live_blocks() if b.term(j)["k"] == "call" and (b.term(j).get("callee") or {}).get("name") in ("extend_mut", "invalid_mut", "error")]
-            if what == "validate_name":
-                # the callee may return false only after recording an error (so only rejected entries lose output)
+            if vn and not sw:
+                # the gate may reject only together with a recorded error (so only rejected entries lose output): recorded by the gate
+                # itself before it returns the rejecting outcome, or by this caller on the rejecting side
                 okvn = True
                 for x in vn:
                     for sb in local_callee_bodies(F, _cs(b, x[1])):
-                        okvn = okvn and false_only_after_error(sb)
+                        okvn = okvn and (false_only_after_error(sb) or bool(errs_all) and b.must_pass(errs_all, start=enabled_t))
                 ctx.check(okvn, "R08.4", key + "-false-implies-error", loc(b, i),
-                          "validate_name can return false without recording a validation error: a valid entry would silently lose the value")
+                          "%s can reject a name without a validation error being recorded (neither by it nor on the rejecting side of this branch): "
+                          "a valid entry would silently lose the value" % what)
                 continue
             dom = dom or b.dominators()
             err_known = [e for e in errs_all]
@@ -182,11 +194,13 @@ def run(ctx):
                 tj = b.term(j)
                 if tj["k"] == "switch":
                     oj = pr.operand(tj["discr"])
-                    vj = [x for x in oj if x[0] == "call" and (b.term(x[1]).get("callee") or {}).get("name") == "validate_name"]
+                    vj = [x for x in oj if x[0] == "call" and any(sb.def_ in gates for sb in local_callee_bodies(F, _cs(b, x[1])))]
                     if vj and all(false_only_after_error(sb) for x in vj for sb in local_callee_bodies(F, _cs(b, x[1]))):
-                        zt = {v: tb for v, tb in tj["targets"]}.get(0)
-                        if zt is not None:
-                            err_known.append(zt)
+                        gj = [sb for sb in local_callee_bodies(F, _cs(b, vj[0][1])) if sb.def_ in gates][0]
+                        pv = gate_switch_value(b, j, gates[gj.def_])
+                        tgj = {v: tb for v, tb in tj["targets"]}
+                        if pv is not None:
+                            err_known += [x for x in b.succ(j) if x != tgj.get(pv, tj["otherwise"]) and b.term(x)["k"] != "unreachable"]
             if any(dominates(b, e, i, dom) for e in err_known):
                 ctx.ok("R08.4", key + "-same-output", loc(b, i), "branch only reached after a validation error was recorded")
                 continue
@@ -252,6 +266,50 @@ def run(ctx):
     ctx.check(len(consult) >= 2, "R08.6", "registry-consulting-switches", "metrique-writer-format-emf/src/emf.rs",
               "expected at least the uniqueness and the dimensions-exist switch to gate look-ups in the name registry, found %s" % sorted(consult),
               "switches gating registry look-ups: %s" % sorted(consult))
+    def reg_units(b, pr, depth=2):
+        """registration units of a body: heads of loops that insert into / look up the registry, and calls of local helpers that do so
+        (helper call block -> the skip flags that are known true whenever the helper returns without having run its loop; None = it always runs it)"""
+        regs = [c for c in b.calls() if c.name in ("entry_ref", "entry", "insert", "raw_entry_mut") and on_map(b, pr, c)]
+        heads = {h.bb for h in b.calls() if h.is_trait_method("Iterator", "next") and
+                 any(r.bb in b.reachable_after(h.bb) and h.bb in b.reachable_after(r.bb) for r in regs)}
+        via = {}
+        if depth > 0:
+            for c in b.calls():
+                for sb in local_callee_bodies(F, c):
+                    if sb.crate != CR or sb.def_ == b.def_ or not c02.in_scope(sb):
+                        continue
+                    spr = Prov(sb)
+                    h2, v2 = reg_units(sb, spr, depth - 1)
+                    if not h2 and not v2:
+                        continue
+                    outs = flags_reaching(sb, spr, set(sb.return_blocks()), depth - 1)
+                    via[c.bb] = None if not outs else frozenset.intersection(*outs)
+        return heads, via
+
+    def flags_reaching(b, pr, targets, depth=2):
+        """the sets of skip flags known true with which a block of `targets` is reached from the entry without running a registration unit"""
+        heads, via = reg_units(b, pr, depth)
+        se = skip_edges(b, pr)
+        start = (0, frozenset())
+        seen, stk, out = {start}, [start], []
+        while stk:
+            x, fl = stk.pop()
+            if x in targets:
+                out.append(fl)
+                continue
+            if x in via:
+                if via[x] is None:
+                    continue
+                fl = fl | via[x]
+            for y in b.succ(x):
+                if y in heads:
+                    continue
+                f2 = fl | {se[(x, y)]} if (x, y) in se else fl
+                if (y, f2) not in seen:
+                    seen.add((y, f2))
+                    stk.append((y, f2))
+        return out
+
     n6 = 0
     for b in F.all_bodies(CR):
         if not (c02.in_scope(b) and b.name == "config"):
@@ -265,26 +323,14 @@ def run(ctx):
                     stores.append((i, place_fields(st["lhs"])[-1]))
         if not regs and not stores:
             continue
-        heads = {h.bb for h in b.calls() if h.is_trait_method("Iterator", "next") and
-                 any(r.bb in b.reachable_after(h.bb) and h.bb in b.reachable_after(r.bb) for r in regs)}
+        heads, via = reg_units(b, pr)
         se = skip_edges(b, pr)
         for sbb, fld in stores:
             n6 += 1
-            # search over (block, set of skip flags known true); registration loop heads are not entered
-            start = (0, frozenset())
-            seen, stk, bad_flags = {start}, [start], None
-            while stk:
-                x, fl = stk.pop()
-                if x == sbb and not (consult <= fl):
-                    bad_flags = fl
-                    break
-                for y in b.succ(x):
-                    if y in heads:
-                        continue
-                    f2 = fl | {se[(x, y)]} if (x, y) in se else fl
-                    if (y, f2) not in seen:
-                        seen.add((y, f2))
-                        stk.append((y, f2))
+            reached = flags_reaching(b, pr, {sbb})
+            bad = [fl for fl in reached if not (consult <= fl)]
+            bad_flags = bad[0] if bad else None
+            heads = heads | set(via)
             ctx.check(bad_flags is None and bool(heads), "R08.6", fnkey(b) + "#dimension-names-registered-before-adoption(%s)" % fld, loc(b, sbb),
                       "the entry's dimension sets are adopted (store to `%s`) on a path that neither runs the loop registering their names in the "
                       "name registry nor has every registry-consulting validation switched off (known off on that path: %s): with validation on, "
@@ -298,6 +344,68 @@ def run(ctx):
 def _cs(b, bb):
     from mq.facts import CallSite
     return CallSite(b, bb, b.term(bb))
+
+
+def gate_helpers(F):
+    """local helpers that read a validation switch and report the verdict on a name as their result:
+    {def: outcome returned when the switch is off} with outcome = ('bool', v) | ('variant', name)"""
+    out = {}
+    for sb in F.all_bodies(CR):
+        if not c02.in_scope(sb) or sb.kind == "closure":
+            continue
+        rty = sb.locals[0]["ty"]
+        if not (rty == "bool" or rty.startswith("core::result::Result<") or rty.startswith("core::option::Option<")):
+            continue
+        pr = Prov(sb)
+        for i in sb.live_blocks():
+            t = sb.term(i)
+            if t["k"] != "switch":
+                continue
+            o = pr.operand(t["discr"])
+            sw = [x for x in o if x[0] == "arg" and x[2] and x[2][-1] in SW]
+            if not sw or any(x[0] == "op" and x[1] != "Not" for x in o):
+                continue
+            negated = any(x == ("op", "Not") for x in o)
+            tg = {v: tb for v, tb in t["targets"]}
+            if tg.get(0) is None:
+                continue
+            off_t = tg[0] if negated else t["otherwise"]         # skip flag true = validation off
+            on_t = t["otherwise"] if negated else tg[0]
+            vals = lambda start: {v for j in sb.reachable(start) for v in _ret_assigns(sb, j)}
+            offv, onv = vals(off_t), vals(on_t)
+            if len(offv) == 1 and None not in offv and (onv - offv):
+                out[sb.def_] = next(iter(offv))
+    return out
+
+
+def _ret_assigns(sb, j):
+    """constant outcomes assigned to the return place in block j (None = a computed one)"""
+    res = []
+    for s in sb.stmts(j):
+        if s["k"] == "assign" and s["lhs"]["l"] == 0 and not s["lhs"].get("p"):
+            rv = s["rv"]
+            if rv["k"] == "use" and "bool" in (op_const(rv["op"]) or {}):
+                res.append(("bool", op_const(rv["op"])["bool"]))
+            elif rv["k"] == "agg" and rv.get("variant"):
+                res.append(("variant", rv["variant"]))
+            else:
+                res.append(None)
+    t = sb.term(j)
+    if t["k"] == "call" and t.get("dest") and t["dest"]["l"] == 0 and not t["dest"].get("p"):
+        res.append(None)
+    return res
+
+
+def gate_switch_value(b, i, outcome):
+    """the value the switch in block i takes for the gate's `outcome`"""
+    if outcome[0] == "bool":
+        return 1 if outcome[1] else 0
+    for s in b.stmts(i):
+        if s["k"] == "assign" and s["rv"]["k"] == "discr":
+            for d, n in s["rv"].get("variants", []):
+                if n == outcome[1]:
+                    return d
+    return None
 
 
 def false_only_after_error(sb):
